@@ -40,3 +40,38 @@ def cinl(x) -> str:
 
 def cinr(x) -> str:
     return f'(inr {x})'
+
+
+def cvalue(v) -> str:
+    """Python JSON-like value (plus ReprStr) -> term of type `value`."""
+    from taskchain.utils.data import ReprStr
+    import ast
+    if v is None:
+        return 'VNone'
+    if isinstance(v, bool):
+        return f'(VBool {cbool(v)})'
+    if isinstance(v, int):
+        return f'(VInt {cZ(v)})'
+    if isinstance(v, float):
+        return f'(VFloat {cstr(repr(v))})'
+    if isinstance(v, ReprStr):
+        return f'(VRepr {cstr(str(v))} {cstr(ast.literal_eval(repr(v)))})'
+    if isinstance(v, str):
+        return f'(VStr {cstr(v)})'
+    if isinstance(v, (list, tuple)):
+        return '(VList ' + clist([cvalue(x) for x in v]) + ')'
+    if isinstance(v, dict):
+        return '(VDict ' + clist([cpair(cstr(k), cvalue(x)) for k, x in v.items()]) + ')'
+    raise TypeError(f'no value encoding for {type(v)}')
+
+
+def jvalue(v):
+    """JSON-able rendering of a value that keeps ReprStr visible (for replay files and oracles)."""
+    from taskchain.utils.data import ReprStr
+    if isinstance(v, ReprStr):
+        return {'__reprstr__': [str(v), repr(v)]}
+    if isinstance(v, (list, tuple)):
+        return [jvalue(x) for x in v]
+    if isinstance(v, dict):
+        return {k: jvalue(x) for k, x in v.items()}
+    return v
